@@ -596,10 +596,14 @@ func (c *Canary) handleTCP(eh *ethernet.Frame, iph *ipv4.Header, data []byte) er
 		// In addition to the processing for the ESTABLISHED state, if
 		// our FIN is now acknowledged then enter FIN-WAIT-2 and continue
 		// processing in that state.
-		state.State = SocketFinWait2
-	} else if state.State == SocketFinWait2 {
-		state.State = SocketTimeWait
+		if hdr.AckNum == state.SendNext {
+			state.State = SocketFinWait2
+		}
 	}
+
+	// FIN-WAIT-2 is left when the peer's FIN arrives (below), not on any
+	// acknowledgement: entering TIME-WAIT here left the peer's remaining
+	// data unacknowledged and its FIN unanswered
 
 	if state.State == SocketEstablished ||
 		state.State == SocketFinWait1 ||
